@@ -623,6 +623,30 @@ func (e *Env) quant(n *EQuant) Val {
 		v := Val{T: vname, S: sort, GT: gt}
 		c.vars[n.Var] = v
 		rng = g.typeFacts(v, gt)
+		// flatten directly nested typed universal quantifiers into one binder list (better trigger inference)
+		if n.Forall {
+			binders := []string{fmt.Sprintf("(%s %s)", vname, sort)}
+			rngs := []string{rng}
+			inner := n.Body
+			for {
+				q, ok := inner.(*EQuant)
+				if !ok || !q.Forall || q.Typ == "" {
+					break
+				}
+				g.nfresh++
+				vn := fmt.Sprintf("q!%s!%d", sanitize(q.Var), g.nfresh)
+				qt := e.resolveType(q.Typ)
+				qv := Val{T: vn, S: g.sortOf(qt), GT: qt}
+				c.vars[q.Var] = qv
+				binders = append(binders, fmt.Sprintf("(%s %s)", vn, qv.S))
+				rngs = append(rngs, g.typeFacts(qv, qt))
+				inner = q.Body
+			}
+			if len(binders) > 1 {
+				body := c.trBool(inner)
+				return Val{T: fmt.Sprintf("(forall (%s) (=> (and %s) %s))", strings.Join(binders, " "), strings.Join(rngs, " "), body), S: "Bool", GT: types.Typ[types.Bool]}
+			}
+		}
 	}
 	body := c.trBool(n.Body)
 	if n.Forall {
@@ -791,6 +815,23 @@ func (e *Env) call(n *ECall) Val {
 		}
 		g.implementsFacts(p, t)
 		return Val{T: fmt.Sprintf("(%s (tagof %s))", p, v.T), S: "Bool", GT: types.Typ[types.Bool]}
+	case "mod":
+		// mod(x, y): the mathematical (SMT-LIB) remainder, equal to Go's x % y for x >= 0, y > 0 (int mode only)
+		if g.mode != "int" {
+			e.fail("mod() is available in int mode only")
+		}
+		a, b, _ := e.unify(e.tr(n.Args[0]), e.tr(n.Args[1]))
+		return Val{T: fmt.Sprintf("(mod %s %s)", a.T, b.T), S: "Int", GT: a.GT}
+	case "cur":
+		// cur(x): the current value of the local variable x (a loop variable that shadows a parameter of the same name)
+		id, ok := n.Args[0].(*EIdent)
+		if !ok || e.lookup == nil {
+			e.fail("cur() needs a local variable name")
+		}
+		if v, ok := e.lookup(id.Name); ok {
+			return v
+		}
+		e.fail("cur(%s): no such local", id.Name)
 	case "substr":
 		v := e.tr(n.Args[0])
 		return Val{T: fmt.Sprintf("(str-sub %s %s %s)", v.T, e.asIdx(e.tr(n.Args[1])), e.asIdx(e.tr(n.Args[2]))), S: "Str", GT: v.GT}
